@@ -409,3 +409,87 @@ def run_shard(args):
         if problems:
             break
     return {'scenarios': 1, 'schedules': len(schedules), 'gates': steps, 'threads': n_threads, 'size': str(size), 'gated_keys': int(gated)}, problems
+
+
+# ---------------------------------------------------------------- first use of a fresh pipeline object from two threads
+
+def _first_use_once(k, order, with_cache):
+    """thread `order[0]` runs `k` line-steps inside the compiler / layer code, then the other thread runs to completion, then the
+    first one finishes; both make the FIRST calls on a fresh pipeline object (fields are compiled lazily, on first access)"""
+    import sys
+    paths.use_repo()
+    world = SymWorld()
+    src = {'k': 'source', 'cls': 'FS', 'ids': ['a', 'b'], 'fields': {'u': {'args': ['i']}, 'v': {'args': ['i']}}, 'params': {}, 'cargs': {}, 'defaults': {}}
+    t = {'k': 'transform', 'cls': 'FT', 'fields': {'x': {'args': ['u']}, 'y': {'args': ['v']}, 'w': {'args': ['u', 'v'], 'opt': True}},
+         'params': {}, 'cargs': {}, 'defaults': {}, 'inherit': True}
+    layers = [src, t] + ([{'k': 'ram', 'names': None, 'size': None}] if with_cache else [])
+    layer = Builder(world).layer({'k': 'chain', 'flavour': 'chain', 'layers': layers})
+    a, b = order
+    schedule = [a] * (k + 1) + [b] * 100000
+    ctrl = Controller(schedule, 2)
+    LockProxy.registry = {}
+    plans = {0: ('x', 'a'), 1: ('y', 'b')}
+    want = {0: canon({'app': ['FT.x', [{'app': ['FS.u', ['a'], [], []]}], [], []]}),
+            1: canon({'app': ['FT.y', [{'app': ['FS.v', ['b'], [], []]}], [], []]})}
+    results = {}
+    marks = ('/connectome/engine/compiler.py', '/connectome/layers/base.py', '/connectome/containers/base.py')
+
+    def local(frame, event, arg):
+        if event == 'line':
+            ctrl.gate('line')
+        return local
+
+    def tracer(frame, event, arg):
+        fn = frame.f_code.co_filename
+        if event == 'call' and fn.endswith(marks):
+            return local
+        return None
+
+    def worker(tid):
+        threading.current_thread().cv_tid = tid
+        ctrl.gate('start')
+        sys.settrace(tracer)
+        try:
+            f, key = plans[tid]
+            try:
+                results[tid] = ('ok', canon(val_to_json(getattr(layer, f)(key), world)))
+            except Exception as e:
+                results[tid] = ('err', exc_name(e) + ': ' + str(e)[:80])
+        finally:
+            sys.settrace(None)
+            ctrl.done()
+    threads = [threading.Thread(target=worker, args=(i,), daemon=True) for i in range(2)]
+    for th in threads:
+        th.start()
+    ok = ctrl.drive(threads, timeout=30)
+    for th in threads:
+        th.join(timeout=2)
+    problems = []
+    if not ok:
+        return ['the schedule did not complete (deadlock or timeout)'], len(ctrl.trace)
+    for tid in (0, 1):
+        r = results.get(tid)
+        if r is None or r[0] == 'err':
+            problems.append(f'first use from two threads: thread {tid} calling {plans[tid][0]}({plans[tid][1]!r}) on a fresh pipeline object while the other '
+                            f'thread was inside its first call got {r[1] if r else "nothing"}; every sequential order returns the value')
+        elif r[1] != want[tid]:
+            problems.append(f'first use from two threads: thread {tid} got {r[1][:100]}, a sequential execution returns {want[tid][:100]}')
+    return problems, len(ctrl.trace)
+
+
+def run_first_use(args):
+    seed, n = args
+    rng = random.Random(seed)
+    problems, steps, runs = [], 0, 0
+    for _ in range(n):
+        k = rng.choice([rng.randint(0, 40), rng.randint(0, 150), rng.randint(0, 400)])
+        order = rng.choice([(0, 1), (1, 0)])
+        with_cache = rng.random() < 0.4
+        pr, st = _first_use_once(k, order, with_cache)
+        runs += 1
+        steps += st
+        for p in pr:
+            problems.append({'k': k, 'order': order, 'with_cache': with_cache, 'msg': p})
+        if problems:
+            break
+    return {'first_use_runs': runs, 'gates': steps}, problems
